@@ -724,7 +724,13 @@ func (vc *VC) havocEffects(st *State, ef *effects, at ast.Node) *State {
 	for _, gl := range vc.ghostLocalsUpdatedIn(at) {
 		n := "gl$" + gl
 		if srt, ok := vc.universe[n]; ok {
-			h.heap[n] = vc.fresh(n, srt)
+			old, had := h.heap[n]
+			nv := vc.fresh(n, srt)
+			h.heap[n] = nv
+			// a ghost set that is only ever extended inside the fragment (g = update(g, k, true)) grows
+			if k, v, isArr := arrParts(srt); had && isArr && v == SBool && vc.ghostOnlyGrowsIn(at, gl) {
+				h.assume(Term{fmt.Sprintf("(forall ((x %s)) (! (=> (select %s x) (select %s x)) :pattern ((select %s x))))", k, old.S, nv.S, nv.S), SBool})
+			}
 		}
 	}
 	if _, ok := vc.universe["gl$$now"]; ok {
@@ -843,6 +849,7 @@ func (vc *VC) execRange(st *State, s *ast.RangeStmt, label string) *State {
 			if isProtoMsgPtr(valObj.Type()) {
 				body.assume(Not(Eq(v, IntLit(0)))) // protobuf: repeated message fields hold no nil elements
 			}
+			vc.assumeAllocated(body, v, valObj.Type())
 			if isStructVal(valObj.Type()) {
 				v = vc.copyStruct(body, valObj.Type(), v)
 			}
